@@ -74,8 +74,11 @@ def runCase (cov : IO.Ref Cov) (j : Json) : IO Json := do
         if k == ci && (assoc col (row cls.tables s)).isSome then n + 1 else n) 0
       let consulted := c.cells.fold (fun n (k, _, _) => if k == ci then n + 1 else n) 0
       let pr := c.prods.fold (fun n (k, _) => if k == ci then n + 1 else n) 0
+      let inTable := ((cls.tables.action.toList.flatMap fun r => r.filterMap fun (_, a) =>
+        if a < 0 then some (-a).toNat else none).eraseDups).length
       (cls.dump.name, Json.mkObj [("action_cells", toJson total), ("cells_hit", toJson hit),
-        ("lookups", toJson consulted), ("productions", toJson (cls.dump.prods.length - 1)), ("productions_reduced", toJson pr)])
+        ("lookups", toJson consulted), ("productions", toJson (cls.dump.prods.length - 1)), ("productions_in_table", toJson inTable),
+        ("productions_reduced", toJson pr)])
     pure (Json.mkObj rows)
   | "classes" =>
     pure (Json.mkObj (all.map fun d => (d.name, Json.mkObj [("states", toJson d.action.length),
